@@ -202,10 +202,38 @@ def run_harness(binary, cmd, outdir, args, timeout=7200):
 
 
 def run_driver(outdir, timeout=7200):
+    """Answer req.txt with the Lean driver. The driver is a pure function of each line, so the file is
+    split into contiguous chunks answered by parallel driver processes and the replies are concatenated."""
     drv = os.path.join(LEAN, ".lake", "build", "bin", "driver")
-    with open(os.path.join(outdir, "req.txt")) as fin, open(os.path.join(outdir, "lean.txt"), "w") as fout:
-        p = subprocess.run([drv], stdin=fin, stdout=fout, stderr=subprocess.PIPE, timeout=timeout)
-    return p.returncode, p.stderr.decode(errors="replace")
+    lines = open(os.path.join(outdir, "req.txt")).read().splitlines(keepends=True)
+    jobs = max(1, min(os.cpu_count() or 1, 16, len(lines) // 2000 + 1))
+    size = (len(lines) + jobs - 1) // jobs if lines else 0
+    procs = []
+    for j in range(jobs):
+        part = lines[j * size:(j + 1) * size] if size else []
+        pin = os.path.join(outdir, "req.%d.part" % j)
+        pout = os.path.join(outdir, "lean.%d.part" % j)
+        with open(pin, "w") as f:
+            f.writelines(part)
+        procs.append((subprocess.Popen([drv], stdin=open(pin), stdout=open(pout, "w"), stderr=subprocess.PIPE), pin, pout))
+    rc, err = 0, ""
+    deadline = time.time() + timeout
+    for p, pin, pout in procs:
+        try:
+            _, e = p.communicate(timeout=max(1, deadline - time.time()))
+        except subprocess.TimeoutExpired:
+            p.kill()
+            _, e = p.communicate()
+            rc, err = 124, err + "driver timed out after %ds; " % timeout
+        if p.returncode not in (0, None) and rc == 0:
+            rc = p.returncode
+        err += e.decode(errors="replace")
+    with open(os.path.join(outdir, "lean.txt"), "w") as fout:
+        for _, pin, pout in procs:
+            fout.write(open(pout).read())
+            os.remove(pin)
+            os.remove(pout)
+    return rc, err
 
 
 def diff_replies(outdir, limit=20):
@@ -404,7 +432,7 @@ PLANS = {
     "C10": dict(proofs=["Proofs.C10"], runs=[("c10", dict(quick=0, thorough=0))],
                 rule="every code point with a non-trivial case class in either source (quick: all below U+0250 and a quarter of the rest) x {i, iu, iv} x {literal, [c], [^c], (c)\\1} x every member of both classes; \\w \\W [\\w] [\\W] \\b for every such code point; non-trivial = c ≠ d equivalent",
                 technique="Lean 4 kernel evaluation over FOLDS / TO_UPPERCASE regenerated from the source vs ICU 78.2 snapshot, lifted to all code points; engine-level sweep of the same relation"),
-    "C01": dict(proofs=["Proofs.C01", "Proofs.Keystone"], runs=[("engine", dict(quick=30000, thorough=1500000), ["--focus", "C01"]), ("lower", dict(quick=10000, thorough=200000))],
+    "C01": dict(proofs=["Proofs.C01", "Proofs.Keystone"], runs=[("engine", dict(quick=30000, thorough=600000), ["--focus", "C01"]), ("lower", dict(quick=10000, thorough=200000))],
                 rule=ENGINE_RULE,
                 technique="Lean 4 ES2025 specification (laws proved) as executable oracle: spec-vs-implementation differential on generated ASTs"),
     "C04": dict(proofs=["Proofs.C04", "Proofs.C04Sem"], runs=[("engine", dict(quick=30000, thorough=1500000), ["--focus", "C04"]),
